@@ -21,7 +21,7 @@ order, every task body, every `FuturesUnordered` polling order, every host answe
 namespace Witverif.Props.C22
 open Witverif.Async Witverif.Async.Task Witverif.Generated
 
-variable {d : Driver} {itw : Bool} {s s' : St} {l : Label} {evs : List Ev}
+variable {d : Driver} {itw : Bool} {s s' : St} {l : Task.Label} {evs : List Ev}
 
 /-- **exit_iff_no_work (⇒).**  A callback decides EXIT only if its event is EVENT_CANCEL, or
 `poll_next` reported the Rust tasks done AND the waitables map is empty (`remaining_work()` false). -/
